@@ -79,6 +79,10 @@ def wf : Value → Bool
 /-- `proto.Bool(v)`: "If v > 1, it will be treated as typedef.BoolInvalid" -/
 def mkBool (b : Nat) : Value := .bool (if b > 1 then boolInvalid else b)
 
+/-- one element of a `typedef.Bool` array as `UnmarshalValue` returns it (since /repo 5da5106): clamped exactly as
+`proto.Bool` clamps a single value (`if v > 1 { v = typedef.BoolInvalid }`) -/
+def clampBool (b : Nat) : Nat := if b > 1 then boolInvalid else b
+
 /-! ### sizes -/
 
 /-- `sizes[t]` of value.go (regenerated) -/
@@ -194,7 +198,7 @@ def unmarshal (bs : List Nat) (arch bt : Nat) (isBool isArray : Bool) : Outcome 
     if isArray then .ok (.sliceInt8 bs) else decScalar 1 arch bs .int8
   else if bt = btEnum ∨ bt = btByte ∨ bt = btUint8 ∨ bt = btUint8z then
     if isBool then
-      if isArray then .ok (.sliceBool bs) else decScalar 1 arch bs mkBool
+      if isArray then .ok (.sliceBool (bs.map clampBool)) else decScalar 1 arch bs mkBool
     else if isArray then .ok (.sliceUint8 bs) else decScalar 1 arch bs .uint8
   else if bt = btSint16 then
     if isArray then .ok (.sliceInt16 (decSlice 2 arch bs)) else decScalar 2 arch bs .int16
